@@ -402,8 +402,8 @@ void session_table_clear(session_table *table) {
     table->all_complete = true;
 }
 
-int derive_session_event(const void *frame, session_table *table, const uint8_t *our_mac) {
-    if (!frame) {
+int derive_session_event(const void *frame, size_t frame_len, session_table *table, const uint8_t *our_mac) {
+    if (!frame || frame_len < sizeof(lltd_demultiplex_header_t)) {
         return -1;
     }
 
@@ -427,6 +427,11 @@ int derive_session_event(const void *frame, session_table *table, const uint8_t 
     }
 
     if (header->opcode == opcode_discover) {
+        /* generation + station count must have been received */
+        const size_t list_offset = sizeof(*header) + 2 * sizeof(uint16_t);
+        if (frame_len < list_offset) {
+            return -1;
+        }
         session_entry *existing = NULL;
         const lltd_discover_upper_header_t *disc_header =
             (const lltd_discover_upper_header_t *)(header + 1);
@@ -443,9 +448,14 @@ int derive_session_event(const void *frame, session_table *table, const uint8_t 
             if (station_count == 0) {
                 acking = true;
             } else {
-                const ethernet_header_t *stations = disc_header->stationList;
+                /* The station list is a run of 6-byte addresses; scan only what the frame holds. */
+                const uint8_t *stations = (const uint8_t *)frame + list_offset;
+                size_t held = (frame_len - list_offset) / 6;
+                if ((size_t)station_count > held) {
+                    station_count = (uint16_t)held;
+                }
                 for (uint16_t i = 0; i < station_count; i++) {
-                    if (mac_equal(stations[i].source.a, our_mac)) {
+                    if (mac_equal(stations + (size_t)i * 6, our_mac)) {
                         acking = true;
                         break;
                     }
